@@ -143,10 +143,21 @@ func runC08(c *core.Ctx) {
 			return o != nil && o.Name() == "MerkleLeafPath"
 		}) {
 			a := ci.Common().Args
-			v, vi := ir.CallOf(a[0])
-			h, hi := ir.CallOf(a[1])
-			okV := v != nil && vi == 0 && ir.CalleeObj(v) != nil && ir.CalleeObj(v).Name() == "GetStorageValue" && ir.Strip(v.Common().Args[1]) == ssa.Value(fn.Params[2])
-			okH := h != nil && hi == 0 && ir.CalleeObj(h) != nil && ir.CalleeObj(h).Name() == "GetCrossStates" && ir.Strip(h.Common().Args[1]) == ssa.Value(fn.Params[1])
+			// either operand may be fetched by a small helper that returns the store's answer
+			isRead := func(x ssa.Value, name string, p *ssa.Parameter) bool {
+				try := func(y ssa.Value) bool {
+					cl, i := ir.CallOf(y)
+					return cl != nil && i == 0 && ir.CalleeObj(cl) != nil && ir.CalleeObj(cl).Name() == name && ir.Strip(cl.Common().Args[1]) == ssa.Value(p)
+				}
+				if try(x) {
+					return true
+				}
+				via, release := valueVia(x)
+				defer release()
+				return via != x && try(via)
+			}
+			okV := isRead(a[0], "GetStorageValue", fn.Params[2])
+			okH := isRead(a[1], "GetCrossStates", fn.Params[1])
 			ok = okV && okH
 		}
 		c.Decide(ok, "C08.served", fn, "proof = MerkleLeafPath(GetStorageValue(key), GetCrossStates(height))", c.P.Rel(fn.Pos()), "")
